@@ -83,7 +83,9 @@ def cases(rng, tier, stats):
         out.append(lex_case("random", src))
     # line accounting across multi-line tokens: string and comment contents with newlines at the start, in the middle and
     # directly before the closing delimiter, followed by tokens whose line numbers are compared
-    contents = ["\n", "ক\n", "\nক", "ক\nখ", "ক\nখ\n", "\n\n", "ক\r\n", "\r\nক\r\n", "ক\n\nখ\n", " \n ", "\n\n\nক"]
+    contents = ["\n", "ক\n", "\nক", "ক\nখ", "ক\nখ\n", "\n\n", "ক\r\n", "\r\nক\r\n", "ক\n\nখ\n", " \n ", "\n\n\nক",
+                # a backslash next to a line break or to the escaped delimiter: the escape must not swallow the newline
+                "ক\\\nখ", "\\\n", "lib\\math\\\nখ\n", "ক\\\r\nখ", "\\\\\nক", "ক\\\n\\\nখ", "ক \\\n"]
     tails = [" x", ";\nx", "\nx;", " + ১ ;\nদেখাও y ;", ";"]
     nml = 0
     for cnt in contents:
@@ -91,7 +93,8 @@ def cases(rng, tier, stats):
             for pre in ("", "ক = ", "\n\nদেখাও "):
                 out.append(lex_case("multiline-string", pre + '"' + cnt + '"' + tl))
                 out.append(lex_case("multiline-comment", pre + "#" + cnt.replace("#", "") + "#" + tl))
-                nml += 2
+                out.append(lex_case("multiline-comment", pre + "# \\# " + cnt.replace("#", "") + "\\#\n#" + tl))
+                nml += 3
     stats["multiline_token_cases"] = nml
     # keywords glued / separated, valid programs truncated everywhere
     nprog = 60 if tier == "thorough" else 12
